@@ -60,6 +60,7 @@ type World struct {
 	Opts     Opts
 	Gen      int // generation (restarts)
 	MaxTimer time.Duration
+	NoFlush  bool // outside a bubble: never sleep real time in Close
 	start    time.Time
 }
 
@@ -138,7 +139,7 @@ func (w *World) boot() error {
 
 // Close flushes every armed timer (advancing the fake clock), cancels contexts, closes the cache, removes the directory.
 func (w *World) Close() {
-	if w.MaxTimer > 0 {
+	if w.MaxTimer > 0 && !w.NoFlush {
 		time.Sleep(w.MaxTimer + time.Second)
 	}
 	w.Cancel()
